@@ -29,16 +29,18 @@ RULE = (
     "Programs: every statement tree of the C13 grammar (text, % try/% except Boom, % for with loop, % for without loop, a def declared and "
     "called [flags: every subset of buffered/filter/cached/decorator without cached+decorator; forms ${d(A)}, "
     "${capture(d, A)}, <%call expr=d(A)> with content; top-level or nested], <%call> of a Python function under "
-    "supports_caller, <%text filter>, <%include>, two-level inherit, ${CB(caller)}) in the families F1 = weight<=W1 with "
+    "supports_caller, <%text filter>, <%include>, two-level inherit, ${CB(caller)}, and in F1 a re-entrant fault-free render() of the same Template ${RR(context)}) in the families F1 = weight<=W1 with "
     "weight = nodes + def modifiers (each flag, nested, capture); F2 = nodes<=W2 with every flag subset at no extra cost; "
     "F3 (thorough) = nodes==W3 with <=1 flag per def over text/try/for/call/py/include/inherit; FT = every F2-shaped program of WT nodes with one stateful statement "
     "(at any depth, one at a time) wrapped in % try. Families are made disjoint (F2,F3,FT minus F1 ...). The finaliser "
     "inserts a probe before/after every statement and in every argument list, % for iterable expression, def/text filter, decorator (before and "
     "after the call), cached body and supports_caller function, and observers of loop/caller/a fresh def call after "
     "every % try. Case = (program, include_error_handler off/True/False, set of armed probes: none, each single probe, "
-    "each pair for programs of weight<=WP, and for programs of weight<=WB1, or <=WB2 with a % try or <%include>, each single probe raising the BaseException-only kind); canonical = printed files + armed set; cases whose armed probes do not all "
+    "each pair for programs of weight<=WP, and for programs of weight<=WB1, or <=WB2 with a % try or <%include>, each single probe raising the BaseException-only kind, and for programs of weight<=WK each single probe raising each of the 7 "
+    "exception families OSError(FileNotFoundError)/KeyError/AttributeError/TypeError/StopIteration/UnicodeError/RuntimeError, all also Boom); canonical = printed files + armed set; cases whose armed probes do not all "
     "fire and include_error_handler cases that do not differ from the off case are dropped as duplicates of a smaller "
-    "case. Each case is run under every handler that applies: none (render_unicode), caller of render_context, "
+    "case. Each case is run under every handler that applies: none (Template.render(), str mode; for weight<=WF also bytes mode with "
+    "output_encoding), caller of render_context, "
     "error_handler returning True, and for programs of weight<=WF error_handler returning False and format_exceptions "
     "(render_unicode at every crash point; render() to bytes with output_encoding and render_context with the caller's "
     "Context at one crash point per distinct construct path and probe kind). "
@@ -50,6 +52,10 @@ ASSUMPTIONS = [
     "DONT_CARE (not generated): decorator+cached on one def (whether the decorator runs on a cache hit is not documented); capture() of a buffered def "
     "(it returns its text instead of writing it); % for inside call content or nested defs (which loop stack they share is not fixed by A4); "
     "<%def> declared inside <%call> content; includes nested deeper than 1; content of the format_exceptions page beyond error name and message",
+    "side-effect counter: every probe counts how often it is reached (armed or not); after each render the counts must equal the reference's "
+    "(a section that runs twice or not at all is a violation); the propagated exception must be the raised object, of its class, with "
+    "__context__ None when one probe is armed; the failing and the follow-up render use the same API (render() in the none/bytes/declining-handler "
+    "configurations, render_unicode() in the error_handler/error page ones)",
     "cache backend is the harness's dict backend (one store per Template); only the set of keys is compared after every render "
     "(a raise in a creation function must leave no entry), stored values are checked through the output of later hits",
     "format_exceptions / error_handler-returns-False are run at every crash point only for programs of weight<=WF: _render_error runs after every "
@@ -61,8 +67,8 @@ ASSUMPTIONS = [
     "the design's bound W=5/7 over the full flag set is infeasible (1.1e6 programs at modifier-weight 5): the bounds reported are what is enumerated completely",
 ]
 BOUNDS = {
-    "quick": {"W1_modifier_weight": 3, "W2_nodes_all_flags": 2, "W2_root_body": "one statement", "WT_wrapped_nodes": 2, "WT_flags": "<=1 per def", "WP_pairs": 2, "WF_error_page_all_points": 2, "WB1_base_kind_all": 2, "WB2_base_kind_try_or_include": 3, "for_iterations": 2},
-    "thorough": {"W1_modifier_weight": 4, "W2_nodes_all_flags": 2, "W3_nodes_single_flags": 3, "WT_wrapped_nodes": 2, "WT_flags": "every subset", "WP_pairs": 3, "WF_error_page_all_points": 3, "WB1_base_kind_all": 3, "WB2_base_kind_try_or_include": 4, "for_iterations": 2},
+    "quick": {"W1_modifier_weight": 3, "W2_nodes_all_flags": 2, "W2_root_body": "one statement", "WT_wrapped_nodes": 2, "WT_flags": "<=1 per def", "WP_pairs": 2, "WF_error_page_all_points": 2, "WB1_base_kind_all": 2, "WB2_base_kind_try_or_include": 3, "WK_exception_families": 2, "for_iterations": 2},
+    "thorough": {"W1_modifier_weight": 4, "W2_nodes_all_flags": 2, "W3_nodes_single_flags": 3, "WT_wrapped_nodes": 2, "WT_flags": "every subset", "WP_pairs": 3, "WF_error_page_all_points": 3, "WB1_base_kind_all": 3, "WB2_base_kind_try_or_include": 4, "WK_exception_families": 3, "for_iterations": 2},
 }
 LEVEL_TEXT = (
     "Every program of the stated grammar within the bounds is rendered by the real code once per crash point and handler; output after the "
@@ -79,9 +85,10 @@ LETTER_POOLS = [
     "kq\U0001d11ezéw\U0001f600hj",
 ]
 
-MODES_ESC = ("plain", "rc", "eh", "ehf", "fe", "feb", "ferc")
+MODES_ESC = ("plain", "rc", "eh", "ehf", "fe", "feb", "ferc", "pb")
+MODES_FAMILY = ("plain", "rc", "eh")  # the exception families: none, caller of render_context, error_handler returning True
 WORLD_OF = {"rc": "plain", "ferc": "fe"}  # modes that use the templates of another mode
-MODES_OK = ("plain", "rc")
+MODES_OK = ("plain", "rc", "pb")
 MODES_BASE = ("plain", "rc", "ehf")  # BaseException-only raise kind: none, caller of render_context, error_handler returning False
 
 
@@ -105,6 +112,7 @@ def modweight(x):
     return 0
 
 
+F2_KINDS = tuple(k for k in ir.NODE_KINDS if k != "rr")  # the re-entrant render is a leaf of F1 only
 F3_KINDS = ("text", "try", "for", "call", "inc", "inh", "py")  # F3 and the quick FT source: without the leaves cb, textf and plain loops
 _GRAMMARS = {}
 
@@ -128,7 +136,7 @@ def grammar(fam):
         if fam == "F1":
             g = ir.Grammar(ir.ALL_FLAGS, modcost=True)
         elif fam == "F2":
-            g = ir.Grammar(ir.ALL_FLAGS)
+            g = ir.Grammar(ir.ALL_FLAGS, kinds=F2_KINDS)
         elif fam == "F3":
             g = ir.Grammar(ir.SINGLE_FLAGS, kinds=F3_KINDS)
         _GRAMMARS[fam] = g
@@ -222,6 +230,8 @@ class World:
         elif mode == "feb":
             kw["format_exceptions"] = True
             kw["output_encoding"] = "utf-8"  # render() returns bytes: the other branch of _render_error
+        elif mode == "pb":
+            kw["output_encoding"] = "utf-8"  # render() to bytes, no handler
         if ieh:
             kw["include_error_handler"] = env.IEHF if ieh == "F" else env.IEH
         self.lookup = TemplateLookup(**kw)
@@ -247,6 +257,18 @@ def has_cached(prog):
     return any(d["c"] for d, _ in ir.all_defs(prog).values())
 
 
+RENDER_API = ("plain", "pb", "feb", "ehf")  # modes whose renders go through Template.render(); the others use render_unicode()
+
+
+def _render(t, mode, T):
+    if mode in RENDER_API:
+        out = t.render(T=T)
+        if isinstance(out, bytes) != (mode in ("pb", "feb")):
+            raise TypeError("render() returned %s in mode %s" % (type(out).__name__, mode))
+        return out.decode("utf-8", "replace") if isinstance(out, bytes) else out
+    return t.render_unicode(T=T)
+
+
 def run_mode(world, mode, targets, r1, r2, cached):
     """execute one (case, mode) on the real code; returns list of (oracle, message, expected, observed)"""
     from mako.runtime import Context
@@ -256,6 +278,7 @@ def run_mode(world, mode, targets, r1, r2, cached):
     if cached:
         world.clear_caches()
     del env.RAISED[:]
+    env.VISITS.clear()
     t = world.main
     T = list(targets)
     exc = None
@@ -283,14 +306,14 @@ def run_mode(world, mode, targets, r1, r2, cached):
                 return bad, nrender
             out = out.decode("utf-8", "replace")
         else:
-            out = t.render_unicode(T=T)
+            out = _render(t, mode, T)
     except (env.Boom, env.BoomBase) as e:
         exc = e
     except Exception as e:  # noqa
         bad.append(("foreign-exception", "first render raises %s" % type(e).__name__, None, "%s: %s" % (type(e).__name__, str(e)[:200])))
         return bad, nrender
     esc = r1["escaped"]
-    if mode in ("plain", "rc", "ehf"):
+    if mode in ("plain", "rc", "ehf", "pb"):
         if esc is None:
             if exc is not None:
                 bad.append(("handled", "exception handled inside the template propagates", r1["out"], "Boom(%r)" % (exc.args[:1],)))
@@ -299,8 +322,15 @@ def run_mode(world, mode, targets, r1, r2, cached):
         else:
             if exc is None:
                 bad.append(("propagate", "unhandled exception does not propagate", "Boom(%d)" % esc, out))
-            elif not (env.RAISED and exc is env.RAISED[-1] and exc.args == (esc, "kaboom#%d" % esc) and isinstance(exc, env.BoomBase) == r1["base"]):
-                bad.append(("identity", "a different exception object propagates", "%s(%d)" % ("BoomBase" if r1["base"] else "Boom", esc), repr(exc)))
+            elif not (
+                env.RAISED
+                and exc is env.RAISED[-1]
+                and exc.args == (esc, "kaboom#%d" % esc)
+                and type(exc) is (env.BoomBase if r1["base"] else env.KIND_CLASSES[r1["kind"]])
+            ):
+                bad.append(("identity", "a different exception object propagates", "%s(%d)" % ("BoomBase" if r1["base"] else env.KIND_NAMES[r1["kind"]], esc), repr(exc)))
+            elif len(targets) == 1 and exc.__context__ is not None:
+                bad.append(("identity", "the propagated exception was raised again while another one was handled (__context__ set)", None, repr(exc.__context__)))
         if mode == "rc" and not bad:
             # state of the Context after render_context returned or raised
             st = (len(ctx._buffer_stack), ctx._buffer_stack[0] is buf, len(ctx.caller_stack), ctx.caller_stack.nextcaller)
@@ -321,21 +351,28 @@ def run_mode(world, mode, targets, r1, r2, cached):
             bad.append(("fe", "format_exceptions set but the exception propagates", "error page", repr(exc)))
         elif not ("Boom" in out and "kaboom#%d" % esc in out):
             bad.append(("fe-page", "error page does not name the exception", "Boom ... kaboom#%d" % esc, out[:300]))
+    if not bad and env.VISITS != r1["visits"]:
+        # side-effect counter: every construct is entered exactly as often as the reference enters it
+        d = {k: (r1["visits"].get(k, 0), env.VISITS.get(k, 0)) for k in set(env.VISITS) | set(r1["visits"]) if env.VISITS.get(k, 0) != r1["visits"].get(k, 0)}
+        bad.append(("visits", "a probe is reached a different number of times (a section ran twice / not at all)", "probe: (expected, observed)", repr(sorted(d.items())[:6])))
     if cached and not bad:
         k = world.cache_keys()
         if k != r1["cache"]:
             bad.append(("cache-keys", "cache entries after the render differ", r1["cache"], k))
     if bad or mode == "rc":
         return bad, nrender  # (the failing path of render_context is the one of render_unicode: second render checked there)
-    # the Template can be rendered again with correct results
+    # the Template can be rendered again with correct results (through the API the failed render used)
+    env.VISITS.clear()
     try:
         nrender += 1
-        out2 = t.render_unicode(T=[])
+        out2 = _render(t, mode, [])
     except Exception as e:  # noqa
         bad.append(("second-render", "second render raises %s" % type(e).__name__, r2["out"], "%s: %s" % (type(e).__name__, str(e)[:200])))
         return bad, nrender
     if out2 != r2["out"]:
         bad.append(("second-render", "second render of the same Template differs", r2["out"], out2))
+    elif env.VISITS != r2["visits"]:
+        bad.append(("visits", "second render: a probe is reached a different number of times", repr(sorted(r2["visits"].items())[:8]), repr(sorted(env.VISITS.items())[:8])))
     elif cached and world.cache_keys() != r2["cache"]:
         bad.append(("cache-keys", "cache entries after the second render differ", r2["cache"], world.cache_keys()))
     return bad, nrender
@@ -345,8 +382,11 @@ def reference(prog, ieh, targets):
     R = ref.Ref(prog, ieh=ieh)
     r1 = R.render(targets)
     r1["cache"] = R.cache_keys()
+    r1["visits"] = R.visits
+    R.visits = {}
     r2 = R.render([])
     r2["cache"] = R.cache_keys()
+    r2["visits"] = R.visits
     return r1, r2
 
 
@@ -362,6 +402,8 @@ def make_sig(oracle, mode, ieh, r1):
             pk = "body"
         if r1.get("base"):
             pk += ":BaseException"
+        elif r1.get("kind"):
+            pk += ":" + env.KIND_NAMES[r1["kind"]]
         return "%s|%s|%s" % (oracle, how, pk)
     return "%s|%s|no raise" % (oracle, mode)
 
@@ -382,7 +424,7 @@ class Runner:
         self.seed = seed
         self.seen = set()
 
-    def program(self, skel, pairs, fe_all, base_kind=False):
+    def program(self, skel, pairs, fe_all, base_kind=False, fam_kinds=False):
         st = self.st
         prog = ir.finalise(skel, letters(self.seed))
         texts = ir.print_program(prog)
@@ -404,6 +446,8 @@ class Runner:
             tsets += [(i, j) for i in range(1, n + 1) for j in range(i + 1, n + 1)]
         if base_kind:
             tsets += [(-i,) for i in range(1, n + 1)]
+        if fam_kinds:
+            tsets += [(i + 1000 * k,) for k in range(1, len(env.KIND_CLASSES)) for i in range(1, n + 1)]
         # reference first (cheap): which cases exist, and which of them gets the format_exceptions run
         cases = []
         for targets in tsets:
@@ -437,10 +481,14 @@ class Runner:
                 modes = ("plain",) if ieh else MODES_BASE
             elif ieh == "F":
                 modes = ("plain",)
+            elif r1["kind"]:
+                modes = MODES_FAMILY if r1["escaped"] is not None else MODES_OK
             else:
                 modes = MODES_ESC if r1["escaped"] is not None else MODES_OK
             for mode in modes:
                 if mode in ("fe", "ehf") and not (fe_all or r1["base"]):
+                    continue
+                if mode == "pb" and not (fe_all and len(targets) <= 1 and not r1["kind"]):
                     continue
                 if mode in ("feb", "ferc"):
                     # bytes / caller's Context variants of the error page: one crash point per distinct construct path and probe kind
@@ -509,7 +557,7 @@ def run_job(job):
         run = Runner(st, job["seed"])
         for idx in range(job["shard"], len(sk), job["nshards"]):
             s = sk[idx]
-            run.program(s, modweight(s) <= b["WP_pairs"], modweight(s) <= b["WF_error_page_all_points"], base_kind_applies(s, b))
+            run.program(s, modweight(s) <= b["WP_pairs"], modweight(s) <= b["WF_error_page_all_points"], base_kind_applies(s, b), modweight(s) <= b["WK_exception_families"])
     finally:
         st.extra["cpu_s"] = round(time.process_time() - t0, 2)
         st.extra["worker_wall_s"] = round(time.time() - w0, 2)
@@ -557,6 +605,8 @@ def corpus(limit=400):
     for src in srcs:
         for skel in src:
             ks = ir.kinds_of(skel)
+            if "rr" in ks:
+                continue  # needs a lookup that knows "/main": not for the cross-path corpus
             kinds = [k for k in sorted(ks) if k not in ("text", "try", "where:top", "call:expr", "flag:-", "call")]
             for k in kinds or ["text"]:
                 kk = (k, "try" in ks)
